@@ -8,6 +8,7 @@ var zzRootMenu = []string{
 	"n{id ... on Obj{x} ... on Other{z}}", "n @skip(if:$v){id}", "u{... on Obj{y} __typename}",
 	"ol{x}", "ol @skip(if:$w){y}", "i", "i(v:3)", "i(w:$k)", "x:i(v:$k,w:2)",
 	"a @skip(if:true)", "a @include(if:false)", "o{x @skip(if:$v) x}", "o{o{y} ...H}",
+	"io(in:{b:\"x\",a:$k})", "li(l:[1,$k])", "o{...H @skip(if:$v) ...H @include(if:$w)}",
 }
 
 const zzFragF = " fragment F on Query{a o{y} ...G}"
